@@ -8,9 +8,9 @@
 
 Tree nodes (tuples):
   ('expr', reads)                         g(a, b)
-  ('assign', reads, binds, form)          forms: plain ann annp walrus tuple tuplesub chain star import from def
+  ('assign', reads, binds, form)          forms: plain ann annp walrus tuple tuplesub chain chainsub star import from def
                                           decodef (two decorators) lambdadef (reads in a lambda default) class
-  ('with', reads, binds, body)
+  ('with', reads, binds, body[, (reads2, binds2)])      second item of the same with statement
   ('comp', iter_reads, cond_reads|None, elt_reads, binds, form, body)
                                           x = [g(elt) for _ in it(iter) if c(cond)]; forms: plain ann walrus with
                                           (function and module scope only: in a class body the element is
@@ -117,7 +117,7 @@ class Gen(object):
                 if opts:
                     return self.rng.choice(opts)
             forms = ['plain'] * 6 + ['ann', 'walrus', 'tuple', 'chain', 'star', 'def', 'class',
-                                     'annp', 'tuplesub', 'lambdadef', 'decodef']
+                                     'annp', 'tuplesub', 'chainsub', 'lambdadef', 'decodef']
             if self.mods:
                 forms += ['import', 'from']
             if self.dotted:
@@ -159,17 +159,28 @@ class Gen(object):
                 while b2[1] == b1[1]:
                     b2 = (b2[0], self.rng.choice(self.names))
                 if form == 'tuplesub':
-                    # x, g.s[<read>], y = ...: the subscript is evaluated after x is bound and before y is
+                    # x, g.s[<read>], y = ...: the subscript is evaluated after x is bound and before y is;
+                    # sometimes the container is the name just bound: x, x[0], y = ...
+                    if self.rng.random() < 0.3:
+                        return ('assign', rd, [b1, b2], form, [], (self.new(), b1[1]))
                     sub = [(self.new(), b1[1] if self.rng.random() < 0.6 else self.rng.choice(self.names))]
                     return ('assign', rd, [b1, b2], form, sub)
                 return ('assign', rd, [b1, b2], form)
             if form in ('import', 'from'):
                 return ('assign', [], [self.bind()], form + ':' + self.mods.pop())
+            if form == 'chainsub':
+                # x = g.s[<read>] = value: the target lists are assigned left to right
+                b = self.bind()
+                return ('assign', rd, [b], form, [(self.new(), b[1] if self.rng.random() < 0.6 else self.rng.choice(self.names))])
             return ('assign', rd, [self.bind()], form)
         if r < 0.58:
-            return ('if', self.reads(0, 2), self.body(depth + 1, in_finally, no_ret),
-                    self.body(depth + 1, in_finally, no_ret) if self.rng.random() < 0.7 else [('pass',)],
-                    [self.bind()] if self.rng.random() < 0.2 else [])
+            trd = self.reads(0, 2)
+            tb = [self.bind()] if self.rng.random() < 0.2 else []
+            tcomp = self.reads(1, 1) if (self.comps and self.rng.random() < 0.15) else []
+            node = ('if', trd, self.body(depth + 1, in_finally, no_ret),
+                    self.body(depth + 1, in_finally, no_ret) if self.rng.random() < 0.7 else [('pass',)], tb)
+            # a comprehension inside the test, evaluated before the test's walrus
+            return node + (tcomp,) if tcomp else node
         if r < 0.68:
             rd = self.reads(0, 2)
             self.loop_depth += 1
@@ -197,7 +208,13 @@ class Gen(object):
                 tsub = [(self.new(), self.rng.choice([o[1] for o in bs] + list(self.names)))]
             return ('for', rd, bs, b, orelse, tsub)
         if r < 0.86:
-            return ('with', self.reads(0, 1), [self.bind()], self.body(depth + 1, in_finally, no_ret))
+            rd1, b1 = self.reads(0, 1), self.bind()
+            if self.rng.random() < 0.35:
+                # a second item that usually reads the name bound by the first
+                rd2 = [(self.new(), b1[1])] if self.rng.random() < 0.7 else self.reads(0, 1)
+                b2 = self.bind()
+                return ('with', rd1, [b1], self.body(depth + 1, in_finally, no_ret), (rd2, [b2]))
+            return ('with', rd1, [b1], self.body(depth + 1, in_finally, no_ret))
         if not self.allow_try:
             return ('expr', self.reads(1, 2))
         # try
@@ -286,11 +303,13 @@ def to_coq(n):
     if k == 'expr':
         return seq(rd_terms(n[1]))
     if k == 'assign':
-        if len(n) > 4:      # tuplesub: reads of the value, first target, subscript reads, second target
-            return seq(rd_terms(n[1]) + bd_terms(n[2][:1]) + rd_terms(n[4]) + bd_terms(n[2][1:]))
+        if len(n) > 4:      # tuplesub / chainsub: reads of the value, first target, subscript reads, second target
+            cont = rd_terms([n[5]]) if len(n) > 5 else []
+            return seq(rd_terms(n[1]) + bd_terms(n[2][:1]) + cont + rd_terms(n[4]) + bd_terms(n[2][1:]))
         return seq(rd_terms(n[1]) + bd_terms(n[2]))
     if k == 'with':
-        return seq(rd_terms(n[1]) + bd_terms(n[2]) + [body_coq(n[3])])
+        second = (rd_terms(n[4][0]) + bd_terms(n[4][1])) if len(n) > 4 else []
+        return seq(rd_terms(n[1]) + bd_terms(n[2]) + second + [body_coq(n[3])])
     if k == 'comp':
         elt = '(Branch %s Skip)' % seq(rd_terms(n[3]))
         if n[2] is not None:
@@ -298,7 +317,8 @@ def to_coq(n):
         return seq(rd_terms(n[1]) + [elt] + bd_terms(n[4]) + [body_coq(n[6])])
     if k == 'if':
         tb = n[4] if len(n) > 4 else []
-        return seq(rd_terms(n[1]) + bd_terms(tb) + ['(Branch %s %s)' % (body_coq(n[2]), body_coq(n[3]))])
+        tcomp = ['(Branch %s Skip)' % seq(rd_terms(n[5]))] if len(n) > 5 else []
+        return seq(rd_terms(n[1]) + tcomp + bd_terms(tb) + ['(Branch %s %s)' % (body_coq(n[2]), body_coq(n[3]))])
     if k == 'while':
         tb = n[4] if len(n) > 4 else []
         return '(While %s %s %s)' % (seq(rd_terms(n[1]) + bd_terms(tb)), body_coq(n[2]), body_coq(n[3]))
@@ -349,8 +369,10 @@ class Renderer(object):
     def args(self, reads):
         return ', '.join(self.rd(r, x) for r, x in reads)
 
-    def call(self, reads, fn='g', walrus=()):
+    def call(self, reads, fn='g', walrus=(), comp=()):
         a = [self.rd(r, x) for r, x in reads]
+        if comp:
+            a.append('[g(%s) for _ in %s()]' % (self.args(comp), '_oc' if self.ins else 'it'))
         for d, x in walrus:
             a.append('(%s := %s)' % (self.tgt(d, x), ('_b(dict(%s=%d))' % (x, d)) if self.ins else 'g()'))
         return '%s(%s)' % (fn, ', '.join(a))
@@ -407,12 +429,15 @@ class Renderer(object):
                     self.emit(ind, '_reg(%r, %s, %d)' % (x, x, d))
             elif form == 'tuplesub':
                 d2, x2 = binds[1]
-                sub = self.args(n[4]) if len(n) > 4 else '0'
+                sub = (self.args(n[4]) if len(n) > 4 else '') or '0'
+                cont = self.rd(*n[5]) if len(n) > 5 else ('_sub' if ins else 'g.s')
                 if ins:
-                    self.emit(ind, '%s, _sub[%s], %s = _b(dict(%s=%d)%s), 0, _b(dict(%s=%d))' % (
-                        x, sub, x2, x, d, (', ' + self.args(reads)) if reads else '', x2, d2))
+                    self.emit(ind, '%s, %s[%s], %s = _b(dict(%s=%d)%s), 0, _b(dict(%s=%d))' % (
+                        x, cont, sub, x2, x, d, (', ' + self.args(reads)) if reads else '', x2, d2))
                 else:
-                    self.emit(ind, '%s, g.s[%s], %s = %s, 0, 1' % (self.tgt(d, x), sub, self.tgt(d2, x2), val))
+                    self.emit(ind, '%s, %s[%s], %s = %s, 0, 1' % (self.tgt(d, x), cont, sub, self.tgt(d2, x2), val))
+            elif form == 'chainsub':
+                self.emit(ind, '%s = %s[%s] = %s' % (self.tgt(d, x), '_sub' if ins else 'g.s', self.args(n[4]), val))
             elif form == 'walrus':
                 self.emit(ind, '(%s := %s)' % (self.tgt(d, x), val))
             elif form == 'tuple':
@@ -481,14 +506,20 @@ class Renderer(object):
         elif k == 'with':
             reads, binds, body = n[1], n[2], n[3]
             d, x = binds[0]
+            second = ''
+            if len(n) > 4:
+                rd2, b2 = n[4]
+                d2, x2 = b2[0]
+                second = (', _cm(%s) as %s' % (self.tagged(b2, rd2), x2)) if ins else (', cm(%s) as %s' % (self.args(rd2), self.tgt(d2, x2)))
             if ins:
-                self.emit(ind, 'with _cm(%s) as %s:' % (self.tagged(binds, reads), x))
+                self.emit(ind, 'with _cm(%s) as %s%s:' % (self.tagged(binds, reads), x, second))
             else:
-                self.emit(ind, 'with cm(%s) as %s:' % (self.args(reads), self.tgt(d, x)))
+                self.emit(ind, 'with cm(%s) as %s%s:' % (self.args(reads), self.tgt(d, x), second))
             self.body(body, ind + 1)
         elif k == 'if':
             tb = n[4] if len(n) > 4 else []
-            self.emit(ind, 'if %s:' % (self.call(n[1], '_ob', tb) if ins else self.call(n[1], 'c', tb)))
+            tcomp = n[5] if len(n) > 5 else ()
+            self.emit(ind, 'if %s:' % (self.call(n[1], '_ob', tb, tcomp) if ins else self.call(n[1], 'c', tb, tcomp)))
             self.body(n[2], ind + 1)
             if n[3] != [('pass',)]:
                 self.emit(ind, 'else:')
@@ -632,6 +663,7 @@ import sys
 class _Stop(BaseException): pass
 class _V(object):
     def __init__(self, tags): self.tags = tags
+    def __setitem__(self, k, v): pass
 class _E0(Exception): pass
 class _E1(Exception): pass
 class _E2(Exception): pass
@@ -734,7 +766,7 @@ def count_decisions_upper(body):
     for n in body:
         k = n[0]
         if k == 'if':
-            total += 1 + max(count_decisions_upper(n[2]), count_decisions_upper(n[3]))
+            total += (2 if len(n) > 5 else 1) + max(count_decisions_upper(n[2]), count_decisions_upper(n[3]))
         elif k == 'while' or k == 'for':
             b = n[2] if k == 'while' else n[3]
             e = n[3] if k == 'while' else n[4]
